@@ -286,6 +286,14 @@ def r9_1(ctx):
                             okv = True  # one leading '/' dropped (the namespace prefix): cannot create '..'
                         if isinstance(v, ast.Call) and call_name(v) == "lstrip" and v.args and isinstance(v.args[0], ast.Constant) and v.args[0].value == "/" and norm(call_recv(v)) == t.id:
                             okv = True
+                        if v is not None and norm(v) == f"{t.id}[1:]":
+                            # the same drop of one leading '/', written as a statement under a test that the name starts with '/'
+                            par_ = parmap(fi)
+                            cur_ = s_
+                            while cur_ in par_:
+                                cur_ = par_[cur_]
+                                if isinstance(cur_, ast.If) and "'/'" in norm(cur_.test) and t.id in names_in(cur_.test):
+                                    okv = True
                         if okv:
                             ctx.ok("R9.1", where(fi), f"{norm(s_, 60)}: rebinding that cannot re-create a '..' prefix", nontrivial=False)
                         elif sanitises(fi, t.id):
